@@ -16,6 +16,8 @@ package main
 //   qualified on a scope with prefix p a metric named p<sep>n and one named n, and
 //             sub-scopes named likewise ("the name formed by the root prefix and the
 //             subscope names in order ... followed by the metric name").
+//   reused    one map object, refilled with other values (same size), handed to consecutive
+//             Tagged calls on one parent, also one level deeper and overriding an inherited key;
 //   empty     the empty string as a tag key, against its absence: at the parent, on
 //             siblings, deeper, overridden, inherited, on the root;
 // All inputs are delimiter-free (stream main): they go through the model as well.
@@ -34,7 +36,7 @@ var twinSets = [][]string{
 }
 
 func derivTwinsCase(r *Rng, i int) dCase {
-	c := dCase{Mode: "deriv", Stream: "main", Shards: []int{1, 1, 2, 16}[r.Intn(4)], Rep: []string{"plain", "cached", "test"}[(i/4)%3]}
+	c := dCase{Mode: "deriv", Stream: "main", Shards: []int{1, 1, 2, 16}[r.Intn(4)], Rep: []string{"plain", "cached", "test"}[(i/5)%3]}
 	c.Prefix = B(r.Pick([]string{"", "p", "svc", "a.b"}))
 	if c.Rep != "test" {
 		c.Sep = B(r.Pick([]string{"", ".", "_", "::"}))
@@ -64,7 +66,7 @@ func derivTwinsCase(r *Rng, i int) dCase {
 		parent = scope(dOp{Op: "tag", H: 0, Tags: []kv{{B("zone"), B("z1")}}})
 	}
 	kind := r.Range(1, 4)
-	switch i % 4 {
+	switch i % 5 {
 	case 0: // invalid bytes
 		set := twinSets[r.Intn(len(twinSets))]
 		pos := r.Intn(5)
@@ -155,6 +157,32 @@ func derivTwinsCase(r *Rng, i int) dCase {
 			met(scope(dOp{Op: "tag", H: parent, Tags: []kv{{B("\x00"), B("z")}, {B("a"), B("")}}}), kind, "m")
 			met(scope(dOp{Op: "tag", H: parent, Tags: []kv{{B(""), B("")}, {B("a"), B("")}}}), kind, "m")
 		}
+	case 4: // one map object, refilled by the caller, for consecutive Tagged calls on one parent
+		// ("Tag maps handed to the API are copied: mutating them afterwards changes nothing")
+		key := r.Pick([]string{"route", "dc", "zone", "k"})
+		vals := []string{"/a", "/b", "/orders", "z2", "z3", "ams", "fra", ""}
+		extra := r.Chance(40)
+		if parent != 0 && c.Ops[0].Op == "tag" && r.Bool() {
+			key = "zone" // overrides the key the parent carries
+		}
+		first := true
+		n := r.Range(2, 4)
+		off := r.Intn(len(vals))
+		for j := 0; j < n; j++ {
+			m := []kv{{B(key), B(vals[(off+j)%len(vals)])}}
+			if extra {
+				m = append(m, kv{B("peer"), B(vals[(off+2*j+1)%len(vals)])})
+			}
+			h := scope(dOp{Op: "tag", H: parent, Tags: m, Reuse: !first})
+			first = false
+			met(h, kind, "hits")
+			if r.Chance(30) { // the scratch map is used one level deeper too
+				h2 := scope(dOp{Op: "tag", H: h, Tags: []kv{{B("step"), B(vals[(off+j)%len(vals)])}}, Reuse: true})
+				met(h2, kind, "hits")
+				h3 := scope(dOp{Op: "tag", H: h, Tags: []kv{{B("step"), B(vals[(off+j+1)%len(vals)])}}, Reuse: true})
+				met(h3, kind, "hits")
+			}
+		}
 	default: // p<sep>n against n
 		sep := string(c.Sep)
 		if sep == "" {
@@ -204,4 +232,68 @@ func derivTwinKeys(r *Rng) dCase {
 		x, y = keyIn{Map: []kv{{B(a), B("v")}}}, keyIn{Map: []kv{{B(b), B("v")}}}
 	}
 	return dCase{Mode: "key", Stream: "main", Keys: []keyIn{x, y}}
+}
+
+// derivNearDelims: pairs of identities of which one holds a delimiter and the other a
+// backslash where the first has the delimiter (plus the plain backslash strings themselves):
+// their keys in the documented format differ, so they are two identities - "Derivations whose
+// prefix or tag set differ never share a scope" - although one of them lies where the format is
+// known not to be injective (F05b). Any way of "repairing" the format by escaping has to keep
+// such pairs apart. Stream near-delims: a pair whose documented keys are EQUAL (the F05b
+// collision itself) is not judged here.
+func derivNearDelims(r *Rng, i int) dCase {
+	a := r.Pick([]string{"a", "k", "ab", ""})
+	b := r.Pick([]string{"b", "1", "v", ""})
+	k2 := r.Pick([]string{"c", "z", "b2"})
+	v2 := r.Pick([]string{"d", "2", ""})
+	p := r.Pick([]string{"p", "svc", "x.y"})
+	bs := "\\"
+	type pair struct {
+		px string
+		x  []kv
+		py string
+		y  []kv
+	}
+	var q pair
+	switch r.Intn(6) {
+	case 0: // {a\:b\, c:d} against {"a=b,c":d}
+		q = pair{"", []kv{{B(a + bs), B(b + bs)}, {B(k2), B(v2)}}, "", []kv{{B(a + "=" + b + "," + k2), B(v2)}}}
+	case 1: // {a:b\, c\:d} against {a:"b,c=d"}
+		q = pair{"", []kv{{B(a), B(b + bs)}, {B(k2 + bs), B(v2)}}, "", []kv{{B(a), B(b + "," + k2 + "=" + v2)}}}
+	case 2: // prefix p\ with {a:b} against no prefix with {"p+a":b}
+		q = pair{p + bs, []kv{{B(a), B(b)}}, "", []kv{{B(p + "+" + a), B(b)}}}
+	case 3: // prefix p\ with {a:b} against prefix "p+a=b" ... no tags: both end in the same bytes only after escaping
+		q = pair{p + bs, []kv{{B("q"), B(b)}}, p + "+q=" + b, nil}
+	case 4: // value ending in a backslash against a value holding the delimiter
+		q = pair{p, []kv{{B("k"), B(b + bs)}, {B("l"), B(v2)}}, p, []kv{{B("k"), B(b + ",l=" + v2)}}}
+	default: // backslashes without any delimiter around: ordinary strings
+		q = pair{p + bs, []kv{{B(a + bs), B(bs + b)}}, p, []kv{{B(a + bs), B(bs + b + bs)}}}
+	}
+	if r.Bool() {
+		q.px, q.x, q.py, q.y = q.py, q.y, q.px, q.x
+	}
+	if i%2 == 0 {
+		return dCase{Mode: "key", Stream: "near-delims", Keys: []keyIn{{Prefix: B(q.px), Map: q.x}, {Prefix: B(q.py), Map: q.y}}}
+	}
+	// the same pair as derivations: prefix = sub-scope name of an unprefixed root
+	c := dCase{Mode: "deriv", Stream: "near-delims", Shards: []int{1, 2, 16, 64}[r.Intn(4)], Rep: []string{"plain", "cached", "test"}[(i/2)%3]}
+	kind := r.Range(1, 4)
+	n := 0
+	one := func(px string, m []kv) {
+		h := 0
+		if px != "" {
+			c.Ops = append(c.Ops, dOp{Op: "sub", H: 0, Name: B(px)})
+			n++
+			h = n
+		}
+		if len(m) > 0 {
+			c.Ops = append(c.Ops, dOp{Op: "tag", H: h, Tags: m})
+			n++
+			h = n
+		}
+		c.Ops = append(c.Ops, dOp{Op: "met", H: h, Kind: kind, Name: "m"})
+	}
+	one(q.px, q.x)
+	one(q.py, q.y)
+	return c
 }
